@@ -7,9 +7,11 @@ from typing import Any, Dict, List
 
 from harness.extract import obs_enums as x_enums
 from harness.extract import obs_tables as x_tables
+from harness.extract import obs_config as x_cfg
 from harness.lib.core import VERIF, Ctx, Rng, lean_lock, run_driver
 from harness.props import c02
 from harness.rigs import obs as rig
+from harness.rigs import obs_env as env
 
 MANIFEST = {
     "text": "Lean 4 proof that, for every observation object and every ground truth (simulator objects: power state, NIC enabled, "
@@ -18,17 +20,33 @@ MANIFEST = {
             "an independently written specification encoder over the objects (C09_observe_eq_spec, all classes, nested); scan "
             "gating per component kind; absent / deleted / node-not-ON read as default with operating_status still reported; slot "
             "i+1 reads configured component i, padding reads default, ACL entry i is list position i; the folder cache equals the "
-            "visible health at every step of every scan-coherent trajectory; NMNE memory holds the previous counters. Tie: scan-gate "
-            "keys and cache update regenerated from the source (C09_gen_scan_gates) + rig that reads ground truth from the objects "
-            "(not from describe_state), sends it to the model and diffs spec(truth) with the observation the environment returned, "
-            "at every step of random and adversarial trajectories (direct object mutation included).",
+            "visible health at every step of every scan-coherent trajectory; NMNE memory holds the previous counters. "
+            "WHICH option governs which leaf is proved from the scenario's words (Model/ObsConfig): the effective option of a host "
+            "= host-level value if given, else nodes-level value, else the documented default, for every inheritable option "
+            "(C09_effective_options, full since the F-C09-3 repair; counterexample for the old default proved), likewise routers / "
+            "firewalls / the acl sub-configuration; every service / application / folder / file / NIC slot of a built host is gated "
+            "by that effective option and a value at the child's own level is ignored (C09_built_host_gates); the health leaf the "
+            "code reports is the last-scanned value exactly when the SCENARIO's effective requires_scan is true "
+            "(C09_*_gate_from_scenario). The simulator-side condition of the folder-cache invariant is proved about C14's health "
+            "model: a folder's visible health changes only in a timestep in which a scan of it completes (C09_health_*). Objects "
+            "with one name: the statement presupposes distinct live names (Truth.NamesDistinct); under it the model's lookups are "
+            "the Python dictionary lookups (C09_first_match_is_dict_lookup, counterexample without it). "
+            "Tie: scan-gate keys and cache update (C09_gen_scan_gates), every ConfigSchema default, every push-down statement, "
+            "constructor and padding arguments of every from_config / __init__ (C09_gen_schema_*, C09_gen_pushdown_*, "
+            "C09_gen_ctor_args), the folder flag set at both writers of visible_health_status (C09_gen_folder_flag) + rig that reads "
+            "ground truth from the objects (not from describe_state), sends it to the model whose observation object was built from "
+            "the scenario's observation_space SECTION (not read back from the constructed object), and diffs spec(truth) with the "
+            "observation the environment returned at every step of random and adversarial trajectories (direct object mutation "
+            "included), with non-default nodes-level options that hosts do not repeat; an ACL family on real routers / firewalls "
+            "with every presence combination of the seven rule fields.",
     "note": "C09-specific: binned float leaves (NIC TRAFFIC, link PROTOCOLS) are excluded from the equality on steps where float rounding "
             "differs from the exact bin. The specification is independent of observe() but shares its threshold categoriser and "
-            "dictionary layout definitions.",
-    "technique": "Lean 4 refinement proof (code encoder o describe_state = specification over objects) + ground-truth differential rig",
+            "dictionary-layout definitions. A listed network interface monitors only its OWN monitored_traffic (the host/nodes value "
+            "is not pushed into it): modelled and stated (C09_built_nic_traffic), not treated as a defect.",
+    "technique": "Lean 4 refinement proof (code encoder o describe_state = specification over objects; construction from the scenario) + ground-truth differential rig",
     "design_ref": "5/C09",
 }
-MODULES = ["PrimaiteModel.Props.C09"]
+MODULES = ["PrimaiteModel.Props.C09", "PrimaiteModel.Props.C09Cfg", "PrimaiteModel.Props.C09Health"]
 EXE = "drv_c02"
 
 
@@ -42,7 +60,9 @@ def chaos(game, rng: Rng) -> None:
         return
     health = [h for h in SoftwareHealthState if h.name != "FIXING"]  # FIXING is entered through fix() (it needs its countdown)
     nodes = list(game.simulation.network.nodes.values())
-    node = rng.choice(nodes)
+    watched = observed_hostnames(game)
+    pool = [n for n in nodes if n.config.hostname in watched]
+    node = rng.choice(pool) if pool and rng.chance(3, 4) else rng.choice(nodes)  # mostly nodes some agent observes
     k = rng.below(14)
     try:
         if k == 0 and node.services:
@@ -75,17 +95,15 @@ def chaos(game, rng: Rng) -> None:
         elif k == 7 and node.network_interface:
             nic = rng.choice(list(node.network_interface.values()))
             rng.choice([nic.disable, nic.enable])()
-        elif k == 8 and hasattr(node, "acl"):
-            from primaite.simulator.network.hardware.nodes.network.router import ACLAction
-            if rng.chance(2, 3):
-                node.acl.add_rule(action=rng.choice(list(ACLAction)), protocol=rng.choice([None, "tcp", "udp", "icmp"]),
-                                  src_ip_address=rng.choice([None, "192.168.1.10", "192.168.10.21", "10.9.9.9", "192.168.0.10"]),
-                                  src_wildcard_mask=rng.choice([None, "0.0.0.1", "0.0.0.255"]),
-                                  dst_ip_address=rng.choice([None, "192.168.1.12", "192.168.1.14"]),
-                                  src_port=rng.choice([None, 80, 5432, 0, 21]), dst_port=rng.choice([None, 80, 53, 0]),
-                                  position=rng.range(0, 11))
-            else:
-                node.acl.remove_rule(rng.range(0, 11))
+        elif k == 8:
+            from primaite.simulator.network.hardware.nodes.network.router import AccessControlList, ACLAction
+            acls = [getattr(node, a) for a in rig.ACL_NAMES if isinstance(getattr(node, a, None), AccessControlList)]
+            if acls:
+                acl = rng.choice(acls)
+                if rng.chance(3, 4):
+                    acl.add_rule(position=rng.range(0, 11), **gen_rule_args(rng, known_addresses(game)))
+                else:
+                    acl.remove_rule(rng.range(0, 11))
         elif k == 9 and hasattr(node, "user_session_manager"):
             usm = node.user_session_manager
             if rng.chance(1, 2):
@@ -111,6 +129,41 @@ def chaos(game, rng: Rng) -> None:
         pass
 
 
+def observed_hostnames(game) -> set:
+    out = set()
+    for _name, agent in rig.agents_with_obs(game):
+        for _path, o in rig.walk(agent.observation_manager.obs):
+            w = getattr(o, "where", None)
+            if w is not None and len(list(w)) >= 3 and list(w)[:2] == ["network", "nodes"]:
+                out.add(list(w)[2])
+    return out
+
+
+def known_addresses(game) -> List[str]:
+    out = []
+    for n in game.simulation.network.nodes.values():
+        for nic in n.network_interface.values():
+            ip = getattr(nic, "ip_address", None)
+            if ip is not None and str(ip) not in out:
+                out.append(str(ip))
+    return out
+
+
+def gen_rule_args(rng: Rng, addresses: List[str]) -> dict:
+    """An ACL rule in which EVERY field of each end is independently present or absent (so: a wildcard mask on an end without an
+    address, a port without a protocol, ...), values drawn from what observation spaces usually list plus unlisted ones."""
+    from primaite.simulator.network.hardware.nodes.network.router import ACLAction
+
+    def opt(pool):
+        return rng.choice(pool) if rng.chance(1, 2) else None
+    ips = (addresses or ["192.168.1.10"]) + ["10.9.9.9"]
+    wcs = ["0.0.0.1", "0.0.0.255", "0.0.255.255", "0.0.0.3"]
+    ports = [80, 5432, 53, 0, 21, 8080]
+    return {"action": rng.choice(list(ACLAction)), "protocol": opt(["tcp", "udp", "icmp"]),
+            "src_ip_address": opt(ips), "src_wildcard_mask": opt(wcs), "src_port": opt(ports),
+            "dst_ip_address": opt(ips), "dst_wildcard_mask": opt(wcs), "dst_port": opt(ports)}
+
+
 def parse_spec_line(line: str):
     spec_part, _, obs_part = line.partition(" | ")
     spec = rig.parse_val(spec_part.split())
@@ -120,16 +173,25 @@ def parse_spec_line(line: str):
 
 def check_truth_run(ctx: Ctx, rname: str, res: dict, by_track: Dict[str, List[str]]) -> bool:
     ok = True
+    recipe = res.get("recipe")
     for inc in res["incoherent"]:
         ctx.violation({"kind": "sim-incoherent", "site": "Folder.visible_health_status", "cause": "changed-without-scanned_this_step"},
                       f"{rname}: folder {inc['folder']} visible health changed {inc['visible']} in a step not flagged scanned_this_step "
-                      f"(episode {inc['episode']} step {inc['step']}): the folder observation cannot show it", inc)
+                      f"(episode {inc['episode']} step {inc['step']}): the folder observation cannot show it", dict(inc, recipe=recipe))
     for key, tr in res["tracks"].items():
         model = by_track[key]
-        for idx in range(4, len(tr["impl"])):
-            o, contained, fb = tr["impl"][idx]
+        if model[2] != "ok":
+            continue  # reported by check_env
+        step = -1
+        for idx in range(tr["first"], len(tr["impl"])):
+            cell = tr["impl"][idx]
+            if isinstance(cell, str) or cell[0] == "flatdim":
+                continue
+            step += 1
+            o, contained, fb = cell
             spec, mv = parse_spec_line(model[idx])
             ctx.count("truth:steps-compared")
+            ctx.count("truth:model-object-from-" + tr["mode"])
             a, b, m = o, spec, mv
             if fb:
                 a, b, m = rig.strip_bins(o), rig.strip_bins(spec), rig.strip_bins(mv)
@@ -138,25 +200,122 @@ def check_truth_run(ctx: Ctx, rname: str, res: dict, by_track: Dict[str, List[st
             if a != b:
                 ok = False
                 d = rig.first_diff(a, b) or ""
-                leaf = d.split(":")[1].rsplit("/", 1)[-1] if ":" in d else "?"
                 path = d.split(": impl=")[0]
                 ctx.violation({"kind": "obs-vs-ground-truth", "leaf": path.rsplit("/", 1)[-1].split(":", 1)[-1], "property_oracle": "observation == spec(objects)"},
-                              f"{rname} {key} step {idx - 4}: observation differs from the documented encoding of the objects: {d}",
-                              {"scenario": rname, "track": key, "step": idx - 4, "diff": d})
+                              f"{rname} {key} step {step}: observation differs from the documented encoding of the objects "
+                              f"(gates taken from the {'scenario file' if tr['mode'] == 'scenario' else 'constructed object'}): {d}",
+                              {"recipe": recipe, "scenario": rname, "track": key, "step": step, "diff": d})
                 break
             if a != m:
                 ok = False
                 ctx.violation({"kind": "model-vs-impl", "what": "observe(describe(truth))", "class": "env"},
-                              f"{rname} {key} step {idx - 4}: model of describe_state/observe differs from the implementation: {rig.first_diff(a, m)}",
-                              {"scenario": rname, "track": key, "step": idx - 4, "diff": rig.first_diff(a, m)})
+                              f"{rname} {key} step {step}: model of describe_state/observe differs from the implementation: {rig.first_diff(a, m)}",
+                              {"recipe": recipe, "scenario": rname, "track": key, "step": step, "diff": rig.first_diff(a, m)})
                 break
     return ok
+
+
+# ----------------------------------------------------------------------------------------------- ACL family on real routers / firewalls
+def acl_family(ctx: Ctx, rng: Rng, n: int) -> int:
+    """Real `Router` / `Firewall` nodes whose ACLs receive rules with every combination of present / absent address, wildcard, port
+    and protocol per rule end; an ACL-observing tree built from a generated configuration observes `describe_state()`; the ground
+    truth is read from the rule OBJECTS and sent to the model's specification (`spec`).  Every ACL leaf of every slot is compared."""
+    from primaite.simulator.network.hardware.nodes.network.firewall import Firewall
+    from primaite.simulator.network.hardware.nodes.network.router import Router
+    from primaite.simulator.sim_container import Simulation
+    lines_all: List[str] = []
+    cases = []
+    addresses = ["10.0.0.1", "10.0.0.2", "192.168.1.10", "192.168.1.12"]
+    combos = rng.shuffle(list(range(128)))
+    ci = 0
+    seen_bits: set = set()
+    for k in range(n):
+        fw = k % 3 == 2
+        name = "fw" if fw else "rt"
+        node = (Firewall.from_config(config={"type": "firewall", "hostname": name, "operating_state": "ON"}) if fw
+                else Router.from_config(config={"type": "router", "hostname": name, "num_ports": 3, "operating_state": "ON"}))
+        sim = Simulation()
+        sim.network.add_node(node)
+        lists = {"ip_list": [x for x in addresses if rng.chance(3, 4)], "wildcard_list": [x for x in ["0.0.0.1", "0.0.0.255", "0.0.255.255"] if rng.chance(3, 4)],
+                 "port_list": [x for x in [80, 5432, 53, 0, 21] if rng.chance(3, 4)], "protocol_list": [x for x in ["tcp", "udp", "icmp"] if rng.chance(3, 4)]}
+        opts = dict(lists, num_rules=rng.choice([8, 16, 24]), num_ports=2, hosts=[], include_users=False,
+                    routers=[] if fw else [{"hostname": name}], firewalls=[{"hostname": name}] if fw else [])
+        cfg = {"type": "nodes", "options": opts}
+        obj = rig.build_impl(cfg)
+        if obj is None:
+            raise RuntimeError(f"ACL family configuration rejected: {getattr(rig.build_impl, 'last_error', '?')}")
+        lines = ["reset", "capture 0", rig.rawcfg_line({"type": "nodes", "options": opts}, None)]
+        impl: List[Any] = [None, None, None]
+        acls = [getattr(node, a) for a in (rig.ACL_NAMES[1:] if fw else ["acl"])]
+        for _round in range(3):
+            for acl in acls:
+                for _ in range(rng.range(2, 8)):
+                    bits = combos[ci % 128]
+                    ci += 1
+                    args = gen_rule_args(rng, addresses)
+                    for j, f in enumerate(["protocol", "src_ip_address", "src_wildcard_mask", "src_port", "dst_ip_address", "dst_wildcard_mask", "dst_port"]):
+                        pool = {"protocol": ["tcp", "udp", "icmp"], "src_ip_address": addresses + ["10.9.9.9"], "dst_ip_address": addresses + ["10.9.9.9"],
+                                "src_wildcard_mask": ["0.0.0.1", "0.0.0.255", "0.0.255.255", "0.0.0.3"], "dst_wildcard_mask": ["0.0.0.1", "0.0.0.255", "0.0.255.255", "0.0.0.3"],
+                                "src_port": [80, 5432, 53, 0, 21, 8080], "dst_port": [80, 5432, 53, 0, 21, 8080]}[f]
+                        args[f] = rng.choice(pool) if (bits >> j) & 1 else None
+                    seen_bits.add(bits)
+                    for end in ("src", "dst"):
+                        if args[f"{end}_wildcard_mask"] is not None and args[f"{end}_ip_address"] is None:
+                            ctx.count(f"acl-family:rules-with-{end}-wildcard-but-no-address")
+                    if (args["src_port"] is not None or args["dst_port"] is not None) and args["protocol"] is None:
+                        ctx.count("acl-family:rules-with-port-but-no-protocol")
+                    ctx.count("acl-family:rules-added")
+                    try:
+                        acl.add_rule(position=rng.range(0, 23), **args)
+                    except Exception:  # noqa: BLE001
+                        ctx.count("acl-family:add_rule-refused")
+                if rng.chance(1, 3):
+                    acl.remove_rule(rng.range(0, 23))
+            state = sim.describe_state()
+            o, exc, raw = rig.observe_impl(obj, state)
+            lines.append("spec " + " ".join(rig.truth_tokens(sim)))  # ground truth from the objects
+            impl.append((o, exc))
+        cases.append((len(lines_all), lines, impl, cfg))
+        lines_all += lines
+    model_all = run_driver(EXE, lines_all)
+    if any(m == "bad-op" for m in model_all):
+        i = model_all.index("bad-op")
+        raise RuntimeError(f"driver rejected line {lines_all[i][:300]!r}")
+    bad = 0
+    ctx.count("acl-family:distinct-presence-combinations-of-7-fields", len(seen_bits))
+    for st, lines, impl, cfg in cases:
+        if model_all[st + 2] != "ok":
+            bad += 1
+            ctx.violation({"kind": "model-vs-impl", "what": "construction accepted/rejected", "class": "acl-family"}, f"acl family: model answers {model_all[st + 2]}", {"cfg": cfg})
+            continue
+        for i in range(3, len(lines)):
+            o, exc = impl[i]
+            spec, mv = parse_spec_line(model_all[st + i])
+            ctx.count("acl-family:states-compared")
+            if o != spec:
+                bad += 1
+                d = rig.first_diff(o, spec) or str(exc)
+                path = d.split(": impl=")[0]
+                ctx.violation({"kind": "obs-vs-ground-truth", "leaf": path.rsplit("/", 1)[-1].split(":", 1)[-1], "class": "acl-family",
+                               "property_oracle": "observation == spec(objects)"},
+                              f"acl family: the ACL observation differs from the documented encoding of the rule objects: {d}", {"cfg": cfg, "diff": d, "line": lines[i][:2000]})
+                break
+            if o != mv:
+                bad += 1
+                ctx.violation({"kind": "model-vs-impl", "what": "observe(describe(truth))", "class": "acl-family"},
+                              f"acl family: model of describe_state/observe differs from the implementation: {rig.first_diff(o, mv)}", {"cfg": cfg})
+                break
+    return bad
 
 
 # ----------------------------------------------------------------------------------------------- corpus witnesses (directed trajectories)
 def run_witness(rec: dict) -> Dict[str, Any]:
     """A directed trajectory on a shipped scenario: object-level operations + steps; returns the first step where the named leaf
-    differs from the ground truth, if any."""
+    differs from the ground truth, if any.  A `construction` witness instead holds a manager configuration: the object built from
+    it must be the one the model builds from the same words (option inheritance, defaults, padding)."""
+    if rec.get("kind") == "construction":
+        ok, detail = c02.construction_agrees(rec["cfg"])
+        return {"ok": ok, "bad": None if ok else detail}
     cfg = rig.load_cfg(rec["scenario"])
     for agent in cfg["agents"]:
         osp = agent.get("observation_space") or {}
@@ -201,31 +360,52 @@ def run_witness(rec: dict) -> Dict[str, Any]:
 
 def replay(rec: dict) -> bool:
     r = rec.get("replay", rec)
-    if "ops" in r:
+    if "ops" in r or r.get("kind") == "construction":
         return run_witness(r)["ok"]
+    if "cfg" in r and "diff" in r and r.get("recipe") is None:
+        return c02.construction_agrees(r["cfg"])[0]
+    if "recipe" in r and r["recipe"] is not None:
+        return c02.replay_env(r, "C09")
     return False
 
 
 def slot_oracle(ctx: Ctx, rng: Rng, n: int) -> int:
     """Implementation-side oracle for slot assignment (C09_slot_padding / C09_slot_assignment): build real HostObservations from
-    generated configs and check that slot i is configured component i, extra slots are padding (where=None), surplus is truncated."""
+    generated configs and check that slot i is configured component i, extra slots are padding (where=None), surplus is truncated.
+    The count of a host is its own `num_*` when given, else the nodes-level one."""
     bad = 0
     for k in range(n):
         rig.set_capture(False)
         obj, facts = rig.gen_object(rng, defects=False)
+        if obj is None:
+            continue
         nodes_cfg = facts["cfg"]["options"]["components"][0]["options"]
+
+        def eff(hc, key):
+            return hc[key] if hc.get(key) is not None else nodes_cfg[key]
         for hc, host in zip(nodes_cfg["hosts"], obj.components["NODES"].hosts):
             for kind, attr, key, num in (("services", "services", "service_name", "num_services"), ("applications", "applications", "application_name", "num_applications"),
                                          ("folders", "folders", "folder_name", "num_folders")):
                 names = [c[key] for c in hc.get(kind, [])]
-                want = (names + [None] * max(0, nodes_cfg[num] - len(names)))[:nodes_cfg[num]]
+                cnt = eff(hc, num)
+                want = (names + [None] * max(0, cnt - len(names)))[:cnt]
                 got = [(list(x.where)[-1] if x.where is not None else None) for x in getattr(host, attr)]
                 ctx.count("slots:" + kind)
                 if got != want:
                     bad += 1
                     ctx.violation({"kind": "slot-assignment", "class": "HostObservation", "slot_kind": kind},
                                   f"slot list of {kind} is {got}, configuration says {want}", {"cfg": facts["cfg"], "host": hc})
-            nn = nodes_cfg["num_nics"]
+            nf = eff(hc, "num_files")
+            for fc, fo in zip(hc.get("folders", []), host.folders):
+                names = [c["file_name"] for c in fc.get("files", [])]
+                want = (names + [None] * max(0, nf - len(names)))[:nf]
+                got = [(list(x.where)[-1] if x.where is not None else None) for x in fo.files]
+                ctx.count("slots:files")
+                if got != want:
+                    bad += 1
+                    ctx.violation({"kind": "slot-assignment", "class": "FolderObservation", "slot_kind": "files"},
+                                  f"file slots are {got}, configuration says {want}", {"cfg": facts["cfg"], "host": hc})
+            nn = eff(hc, "num_nics")
             nics = [c["nic_num"] for c in hc.get("network_interfaces", [])]
             want = (nics + list(range(1, nn + 1)))[:nn] if len(nics) < nn else nics[:nn]
             got = [list(x.where)[-1] for x in host.nics]
@@ -234,67 +414,63 @@ def slot_oracle(ctx: Ctx, rng: Rng, n: int) -> int:
                 bad += 1
                 ctx.violation({"kind": "slot-assignment", "class": "HostObservation", "slot_kind": "nics"},
                               f"NIC slots are {got}, configuration says {want}", {"cfg": facts["cfg"], "host": hc})
+        for rc, router in zip(nodes_cfg.get("routers", []), obj.components["NODES"].routers):
+            np_ = eff(rc, "num_ports")
+            ids = [c["port_id"] for c in rc["ports"]] if rc.get("ports") is not None else list(range(1, np_ + 1))
+            want = (ids + [None] * max(0, np_ - len(ids)))[:np_]
+            got = [(list(x.where)[-1] if x.where is not None else None) for x in router.ports]
+            ctx.count("slots:router-ports")
+            if got != want:
+                bad += 1
+                ctx.violation({"kind": "slot-assignment", "class": "RouterObservation", "slot_kind": "ports"},
+                              f"port slots are {got}, configuration says {want}", {"cfg": facts["cfg"], "router": rc})
     return bad
+
+
+guarded = c02.guarded
 
 
 def run(ctx: Ctx):
     with lean_lock():
         ctx.extract(x_enums.GEN_NAME, x_enums.emit)
         ctx.extract(x_tables.GEN_NAME, x_tables.emit)
+        ctx.extract(x_cfg.GEN_NAME, x_cfg.emit)
         ctx.prove(MODULES, exes=[EXE], clean=False, leanchecker=ctx.thorough)
-    ctx.cov["rule"] = ("cases = trajectories of shipped and mutated scenarios (random + burst actions, plus direct mutation of simulator "
-                       "objects); at every step, for every agent with an observation space, ground truth is read from the objects, sent to "
-                       "the model, and spec(truth) is diffed with the observation the environment produced; distinct by (scenario variant, track)")
+    ctx.cov["rule"] = ("cases = trajectories of shipped scenarios, of variants with generated observation spaces (non-default nodes-level options "
+                       "that hosts do not repeat), of generated small scenarios and of episode schedules (random + burst actions, plus direct "
+                       "mutation of simulator objects); at every step, for every agent with an observation space, ground truth is read from the "
+                       "objects, sent to the model whose observation object was built from the SCENARIO's observation_space section, and "
+                       "spec(truth) is diffed with the observation the environment produced; plus an ACL family on real routers/firewalls; "
+                       "distinct by (recipe, track)")
     # corpus: directed witnesses
     for f in sorted((VERIF / "corpus" / "C09").glob("*.json")):
         rec = json.loads(f.read_text())
-        r = run_witness(rec)
+        r = guarded(ctx, f"corpus {f.name}", run_witness, rec)
+        if r is None:
+            continue
         ctx.count("corpus:" + ("faithful" if r["ok"] else "unfaithful"))
         ctx.case({"corpus": f.name}, True)
         if not r["ok"]:
             ctx.violation(dict(rec["sig"], property_oracle="observation == ground truth"), f"corpus {f.name}: {rec['what']} ({r['bad']})",
                           dict(rec, corpus=f.name, result=r))
-    bad = slot_oracle(ctx, ctx.rng.fork("slots"), ctx.scale(150, 2000))
-    ctx.oblige("oracle: slot i reads configured component i, padding is where=None, surplus truncated", "correspondence", bad == 0, f"{bad} slot lists differ")
-    rng = ctx.rng.fork("obs-truth")
-    runs = []
-    scen = rig.SCENARIOS if ctx.thorough else rig.SCENARIOS[:7]
+    bad = guarded(ctx, "slot oracle", slot_oracle, ctx, ctx.rng.fork("slots"), ctx.scale(150, 2000))
+    if bad is not None:
+        ctx.oblige("oracle: slot i reads configured component i, padding is where=None, surplus truncated", "correspondence", bad == 0, f"{bad} slot lists differ")
+    bad = guarded(ctx, "acl family", acl_family, ctx, ctx.rng.fork("acl-family"), ctx.scale(12, 120))
+    if bad is not None:
+        ctx.oblige("rig:ACL family: every ACL leaf equals spec(rule objects)", "correspondence", bad == 0, f"{bad} cases differ")
     t0 = time.time()
-    for rel in scen:
-        base = rig.load_cfg(rel)
-        variants = [base] + [rig.mutate_cfg(base, rng) for _ in range(ctx.scale(2, 4))]
-        for vi, cfg in enumerate(variants):
-            try:
-                res = c02.env_trajectory(ctx, rel, cfg, rng, episodes=ctx.scale(2, 3), steps=ctx.scale(30, 100), want_truth=True,
-                                         chaos=chaos if vi > 0 else None)
-            except Exception as e:  # noqa: BLE001
-                import traceback
-                tb = traceback.format_exc()
-                if "observations/" in tb:
-                    ctx.violation({"kind": "env-raises", "site": tb.strip().splitlines()[-3].strip()[:120]},
-                                  f"{rel} variant {vi}: step/reset raised inside the observation layer: {type(e).__name__}: {e}",
-                                  {"scenario": rel, "variant": vi, "traceback": tb[-1500:]})
-                else:
-                    ctx.count("env:variant-failed-outside-observations")
-                    ctx.notes.append(f"{rel} variant {vi}: {type(e).__name__}: {str(e)[:120]}")
-                continue
-            runs.append((f"{rel}#{vi}", res))
-    lines_all, index = [], {}
-    for rname, res in runs:
-        for key, tr in res["tracks"].items():
-            index[(rname, key)] = (len(lines_all), len(tr["lines"]))
-            lines_all += tr["lines"]
-    model_all = run_driver(EXE, lines_all) if lines_all else []
-    if any(m == "bad-op" for m in model_all):
-        i = model_all.index("bad-op")
-        raise RuntimeError(f"driver rejected line {lines_all[i][:300]!r}")
-    agree = 0
-    for rname, res in runs:
-        by_track = {key: model_all[index[(rname, key)][0]: index[(rname, key)][0] + index[(rname, key)][1]] for key in res["tracks"]}
-        ctx.cov["traces_validated_against_impl"] += len(res["tracks"])
-        ctx.case({"env": rname, "n": sum(len(t["impl"]) for t in res["tracks"].values())}, True)
-        c02.check_env(ctx, rname, res, by_track, spec_mode=True)
-        if check_truth_run(ctx, rname, res, by_track):
-            agree += 1
-    ctx.oblige("rig:R-env observation == spec(ground truth) on every step", "correspondence", agree == len(runs), f"{len(runs) - agree} of {len(runs)} runs differ")
-    ctx.notes.append(f"ground-truth trajectories: {len(runs)} runs, {time.time() - t0:.1f}s")
+    recipes = c02.env_recipes(ctx, ctx.rng.fork("obs-truth"), truth=True)
+    runs = c02.run_env_recipes(ctx, recipes, chaos=chaos)
+    models = guarded(ctx, "model driver on the trajectories", env.run_model, EXE, runs)
+    if models is not None:
+        agree = 0
+        for rname, res in runs:
+            ctx.cov["traces_validated_against_impl"] += len(res["tracks"])
+            ctx.case({"env": rname, "recipe": res["recipe"], "n": sum(len(t["impl"]) for t in res["tracks"].values())}, True)
+            a = guarded(ctx, f"check {rname}", env.check_env, ctx, rname, res, models[rname], True)
+            b = guarded(ctx, f"truth {rname}", check_truth_run, ctx, rname, res, models[rname])
+            if a and b:
+                agree += 1
+        ctx.oblige("rig:R-env observation == spec(ground truth) on every step", "correspondence", agree == len(runs), f"{len(runs) - agree} of {len(runs)} runs differ")
+    ctx.notes.append(f"ground-truth trajectories: {len(runs)} of {len(recipes)} recipes ran, {ctx.hist.get('env:steps', 0)} steps, {time.time() - t0:.1f}s")
